@@ -63,6 +63,27 @@ def run(ctx):
                     lookups[b.name] = ok and cap_ok
                     r.ob("R16.2.lookup-by-name", b.name, ok and cap_ok, "selects the child by %s, the name being the caller's argument" % why if ok and cap_ok else
                          "lookup predicate is not name-only: %s (captures the name argument: %s)" % (why, cap_ok), site=cs, key="R16.2|%s" % b.name)
+    # loop-form lookups: a method (&self, &name) -> Option<..> whose only comparisons are item.name == name
+    for b in lib.real_bodies():
+        if b.kind == "closure" or b.name in lookups:
+            continue
+        f = lib.fns.get(b.name, {})
+        if f.get("impl_self", {}).get("adt") != "element::Element" or f.get("output", {}).get("adt") != "std::option::Option" or len(f.get("inputs", [])) != 2:
+            continue
+        cmps = [cs for cs in b.calls() if cname(cs.node) in ("std::cmp::PartialEq::eq", "std::cmp::PartialEq::ne")]
+        if not cmps:
+            continue
+        good = True
+        for cs in cmps:
+            sides = [strip(term_of(b, a)) for a in cs.node["args"]]
+            item = [x for x in sides if x[0] == "proj" and [e[3] for e in x[2] if e != "*" and e[0] == "f"] == ["name"] and
+                    any(st[0] == "call" and st[1] == "std::iter::Iterator::next" for st in mir.subterms(x)) and
+                    any(_is_children_of(st, ("arg", 1)) for st in mir.subterms(x) if st[0] == "proj")]
+            arg = [x for x in sides if x == ("arg", 2)]
+            good = good and len(item) == 1 and len(arg) == 1
+        if good:
+            lookups[b.name] = True
+            r.ob("R16.2.lookup-by-name", b.name, True, "loop over self.children comparing only item.name with the caller's argument", site=cmps[0], key="R16.2|%s" % b.name)
     r.ob("R16.2.lookup-inventory", "library", len(lookups) >= 3, "%d name lookups over self.children (get_child, get_child_mut, remove_child): %s" % (len(lookups), sorted(lookups)),
          key="R16.2|inventory")
     # removal removes the found index of the same vector (D2 pattern restated for the addressed child)
